@@ -1033,3 +1033,6 @@ def run(ctx):
     # the exception context may share bytes only with the BLAMED thread's context: which entry that is, is decided by tid (same rule instance as C05/branch-select)
     from rules import c05 as _c05bs
     _c05bs.rule_branch_select(ctx, R="C01/exception-context-of-blamed-tid")
+    # every flush hands the destination exactly the pending bytes and records how far it got (rules/families.py, destination family)
+    from rules import families as _famd2
+    _famd2.destination(ctx, "C01")
